@@ -84,7 +84,11 @@ Qed.
 
 (* ---------- clause (4a): one delivered event per acknowledged, committed write ---------- *)
 Lemma obs_committed m d : o_committed (snd (dstep_run m d)) = s_committed (m_s (fst (dstep_run m d))).
-Proof. destruct d; cbn [dstep_run fst snd m_s mk_obs o_committed]; try reflexivity. destruct (s_retry (m_s m)); reflexivity. Qed.
+Proof.
+  destruct d; unfold dstep_run; cbv zeta.
+  all: try (cbn [fst snd m_s mk_obs o_committed]; reflexivity).
+  destruct (s_retry (m_s m)); cbn [fst snd m_s mk_obs o_committed]; reflexivity.
+Qed.
 
 Lemma final_committed_one o : final_committed [o] = o_committed o.
 Proof. reflexivity. Qed.
@@ -109,40 +113,70 @@ Qed.
 
 Lemma verb_eqb_refl v : verb_eqb v v = true. Proof. destruct v; reflexivity. Qed.
 
-Lemma ack_head q m b op envs gerr hold sF :
-  MI q m -> Sim b (m_s m) -> dstep_wf (DWrite op envs gerr hold) ->
-  leads (m_s (fst (dstep_run m (DWrite op envs gerr hold)))) sF ->
-  ack_event_ok (map ev_obs (rev (s_events sF))) (s_committed sF) (DWrite op envs gerr hold, snd (dstep_run m (DWrite op envs gerr hold))) = true.
+Lemma ack_match evs ev fin op envs g hd o kv u :
+  ev_desc evs -> In ev evs -> e_rev ev <= fin -> o_d o = OResp (ROk (e_rev ev) kv) u ->
+  e_verb ev = op_verb op -> e_key ev = op_key op -> (forall x, op_value op = Some x -> e_val ev = x) ->
+  ack_event_ok (map ev_obs (rev evs)) fin (DWrite op envs g hd, o) = true.
 Proof.
-  intros [MR MF MD] _ W LF. destruct (dstep_wf_write _ _ _ _ W) as [We Wo]. destruct W as [_ OW].
-  cbn [dstep_run fst snd m_s] in *. set (s := m_s m) in *. set (t := m_tid m) in *.
-  assert (G : get_thread t (s_threads s) = None) by (apply MF; lia).
-  destruct (write_run s t op envs gerr G OW We) as [th' [r [c [eo [G' [O' [P' [[Hd [Hc [Hv Hs]]] [HL F']]]]]]]]].
-  assert (L1 : leads s (run_thread 12 t envs gerr (step s (LInvoke t op)))).
-  { eapply leads_trans; [apply (leads_step s (LInvoke t op)); exact Wo|apply run_thread_leads; exact We]. }
-  remember (run_thread 12 t envs gerr (step s (LInvoke t op))) as s1 eqn:Es1.
+  intros D Hin Hf Ho Hv Hk Hx. unfold ack_event_ok. rewrite Ho.
+  assert ((fin <? e_rev ev) = false) as -> by (apply N.ltb_ge; exact Hf).
+  pose proof (delivered_unique evs ev D Hin) as DU. unfold evobs in *. rewrite DU.
+  unfold ev_obs. rewrite Hv, Hk, verb_eqb_refl, N.eqb_refl. cbn [andb].
+  destruct (op_value op) as [x|]; [|reflexivity]. rewrite (Hx x eq_refl). apply beqb_refl.
+Qed.
+
+Lemma ack_head_core q s1 t op envs gerr hold s2 sF d0 sl0 th' r c eo :
+  reach q s1 -> get_thread t (s_threads s1) = Some th' -> t_pc th' = PDone r ->
+  posted d0 sl0 op s1 c eo -> link d0 c eo r -> leads s1 sF ->
+  ack_event_ok (map ev_obs (rev (s_events sF))) (s_committed sF) (DWrite op envs gerr hold, mk_obs (resp_of s1 t) s2) = true.
+Proof.
+  intros R1 G' P' [Hd [Hc [Hv Hs]]] HL LF.
   assert (Eob : resp_of s1 t = OResp r (t_unk th')) by (unfold resp_of; rewrite G', P'; reflexivity).
-  rewrite Eob in *. unfold ack_event_ok. cbn [o_d mk_obs].
-  destruct r as [h kv| | |]; try reflexivity.
+  destruct r as [h kv| | |]; try (unfold ack_event_ok; cbn [o_d mk_obs]; rewrite Eob; reflexivity).
   destruct eo as [er|]; cbn [link] in HL; [destruct HL as [[_ HL]|[_ [[h' [kv' HL]]|HL]]]; discriminate|].
   injection HL as -> ->.
-  destruct (s_committed sF <? s_dealt s + 1) eqn:Efin; [reflexivity|]. apply N.ltb_ge in Efin.
-  set (ev0 := mk_ev (s_dealt s + 1) (c_prev c) (op_verb op) (op_key op) (c_val c) None).
-  assert (R1 : reach q s1) by (apply (leads_reach q s s1 MR L1)).
+  destruct (s_committed sF <? d0 + 1) eqn:Efin; [unfold ack_event_ok; cbn [o_d mk_obs]; rewrite Eob, Efin; reflexivity|].
+  apply N.ltb_ge in Efin.
+  set (ev0 := mk_ev (d0 + 1) (c_prev c) (op_verb op) (op_key op) (c_val c) None).
   assert (A1 : acked s1 ev0) by (split; [reflexivity|right; rewrite Hs; apply slot_set_same]).
-  set (held := if hold && is_unc_resp _ then _ else _) in LF.
-  assert (LF' : leads s1 sF) by (eapply leads_trans; [apply (settle_leads seq_fuel held s1)|exact LF]).
-  pose proof (acked_leads q s1 sF ev0 R1 LF' A1) as AF.
-  pose proof (leads_reach q s1 sF R1 LF') as RF.
+  pose proof (acked_leads q s1 sF ev0 R1 LF A1) as AF.
+  pose proof (leads_reach q s1 sF R1 LF) as RF.
   pose proof (acked_published sF ev0 (reach_inv1 q sF RF) AF Efin) as Hin.
-  change (s_dealt s + 1) with (e_rev ev0) at 1.
-  rewrite (delivered_unique (s_events sF) ev0 (a_sorted _ (reach_inv3 q sF RF)) Hin).
-  cbn [ev_obs ev0 mk_ev e_verb e_key e_val e_rev]. rewrite verb_eqb_refl, N.eqb_refl. cbn [andb].
-  unfold cv_ok in Hv. destruct (op_value op) as [x|]; [|reflexivity]. rewrite Hv. apply beqb_refl.
+  apply (ack_match (s_events sF) ev0 (s_committed sF) op envs gerr hold _ (c_old c) (t_unk th') (a_sorted _ (reach_inv3 q sF RF)) Hin Efin);
+    try reflexivity; [exact Eob|].
+  intros x Hx. unfold cv_ok in Hv. rewrite Hx in Hv. exact Hv.
+Qed.
+
+Lemma ack_head q s t op envs gerr hold s2 sF :
+  reach q s -> get_thread t (s_threads s) = None -> op_is_write op = true -> envs_wf envs -> op_wf op ->
+  leads s2 sF -> leads (run_thread 12 t envs gerr (step s (LInvoke t op))) s2 ->
+  ack_event_ok (map ev_obs (rev (s_events sF))) (s_committed sF)
+    (DWrite op envs gerr hold, mk_obs (resp_of (run_thread 12 t envs gerr (step s (LInvoke t op))) t) s2) = true.
+Proof.
+  intros MR G OW We Wo LF2 LF1. pose proof (leads_trans _ _ _ LF1 LF2) as LF.
+  destruct (write_run s t op envs gerr G OW We) as [th' [r [c [eo [G' [O' [P' [HP [HL F']]]]]]]]].
+  assert (L1 : leads s (run_thread 12 t envs gerr (step s (LInvoke t op)))).
+  { eapply leads_trans; [apply (leads_step s (LInvoke t op)); exact Wo|apply run_thread_leads; exact We]. }
+  apply (ack_head_core q _ t op envs gerr hold s2 sF (s_dealt s) (s_slots s) th' r c eo (leads_reach q s _ MR L1) G' P' HP HL LF).
 Qed.
 
 Lemma ack_other evs fin d o : (forall op envs g h, d <> DWrite op envs g h) -> ack_event_ok evs fin (d, o) = true.
 Proof. intros N. unfold ack_event_ok. destruct d; try reflexivity. exfalso. eapply N. reflexivity. Qed.
+
+(* guide the kernel: compare the macro runners' arguments instead of unfolding them *)
+Local Opaque settle run_thread run_retry run_retry_get.
+
+Lemma ack_head_step q m op envs gerr hold sF :
+  MI q m -> dstep_wf (DWrite op envs gerr hold) ->
+  leads (m_s (fst (dstep_run m (DWrite op envs gerr hold)))) sF ->
+  ack_event_ok (map ev_obs (rev (s_events sF))) (s_committed sF) (DWrite op envs gerr hold, snd (dstep_run m (DWrite op envs gerr hold))) = true.
+Proof.
+  intros M Wd LF. destruct (dstep_wf_write _ _ _ _ Wd) as [We Wo]. destruct Wd as [_ OW].
+  unfold dstep_run in *. cbv zeta in *. cbn [fst snd m_s] in *.
+  refine (ack_head q (m_s m) (m_tid m) op envs gerr hold _ sF (mi_reach q m M) _ OW We Wo LF _).
+  - apply (mi_fresh q m M). lia.
+  - apply settle_leads.
+Qed.
 
 Lemma ack_fold q ds : forall m b,
   MI q m -> Sim b (m_s m) -> Forall dstep_wf ds ->
@@ -152,7 +186,7 @@ Proof.
   induction ds as [|d ds IH]; intros m b M S W x Hx; [contradiction|].
   inversion W as [|? ? Wd Wds]; subst.
   destruct (dstep_sim q b m d M S Wd) as [M1 [S1 _]].
-  pose proof (fun sF => ack_head q m b) as AH.
+  pose proof (ack_head_step q m) as AH.
   cbn [script_run] in *.
   destruct (dstep_run m d) as [m1 o] eqn:ED. cbn [fst snd] in *.
   pose proof (script_run_leads ds m1 Wds) as L2.
@@ -160,5 +194,199 @@ Proof.
   destruct (script_run m1 ds) as [m2 os] eqn:ES. cbn [fst snd combine] in *.
   destruct Hx as [<-|Hx]; [|apply IH; exact Hx].
   destruct d; try (apply ack_other; intros; discriminate).
-  pose proof (ack_head q m b op envs gerr hold (m_s m2) M S Wd) as H. rewrite ED in H. cbn [fst snd] in H. apply H. exact L2.
+  specialize (AH op envs gerr hold (m_s m2) M Wd). rewrite ED in AH. cbn [fst snd] in AH. apply AH. exact L2.
+Qed.
+
+(* (4a) every acknowledged write whose revision is committed when the script ends has exactly one delivered event, with
+   its verb, key and value   [<- the request's valid event sits in its result slot until the sequencer publishes it] *)
+Theorem oracle_clause_ack c : c09_valid c -> c09_check c = true ->
+  forallb (ack_event_ok (c_events c) (final_committed (c_obs c))) (combine (c_script c) (c_obs c)) = true.
+Proof.
+  intros W C. destruct (check_spec c C) as [Eo [Ee _]]. apply forallb_forall. intros x Hx.
+  rewrite Eo in Hx |- *. rewrite Ee.
+  unfold c09_valid in W. destruct (c_script c) as [|d ds] eqn:Es; [contradiction|].
+  rewrite final_committed_run by discriminate.
+  apply (ack_fold r0 (d :: ds) minit book0 minit_MI minit_Sim W x Hx).
+Qed.
+
+Local Transparent settle run_thread run_retry run_retry_get.
+
+(* ---------- clause (6): the probe after a drained List ---------- *)
+Lemma run_thread_ok_iter fuel t s th :
+  get_thread t (s_threads s) = Some th -> (forall r, t_pc th <> PDone r) ->
+  run_thread (S fuel) t [] false s = run_thread fuel t [] false (step s (LThread t EnvOk)).
+Proof.
+  intros G N. cbn [run_thread]. unfold pc_of. rewrite G. destruct (t_pc th) eqn:P; try reflexivity.
+  - destruct (t_op th); reflexivity.
+  - exfalso. apply (N r). reflexivity.
+Qed.
+
+Lemma run_thread_stop fuel t s th r :
+  get_thread t (s_threads s) = Some th -> t_pc th = PDone r -> run_thread (S fuel) t [] false s = s.
+Proof. intros G P. cbn [run_thread]. unfold pc_of. rewrite G, P. reflexivity. Qed.
+
+(* a conditional update whose expected revision is the key's newest, live version, alone in the system *)
+Lemma upd_run s t k v p val rest :
+  get_thread t (s_threads s) = None ->
+  k_vers (s_store s k) = (N.pos p, val) :: rest -> k_idx (s_store s k) = Some (N.pos p, false) -> N.pos p <= s_dealt s ->
+  let b := mk_batch k (CIs (N.pos p, false)) (s_dealt s + 1) false v in
+  let ev := mk_ev (s_dealt s + 1) (N.pos p) VPut k v None in
+  let s1 := run_thread 12 t [] false (step s (LInvoke t (OUpdate k v (N.pos p)))) in
+  exists th', get_thread t (s_threads s1) = Some th' /\ t_pc th' = PDone (ROk (s_dealt s + 1) None) /\ t_unk th' = false /\
+    s_store s1 = apply_batch (s_store s) b /\ s_dealt s1 = s_dealt s + 1 /\
+    s_slots s1 = slot_set (s_slots s) (s_dealt s + 1) (Some ev) /\ thread_frame s s1 t.
+Proof.
+  intros G Hv Hi Hle. cbv zeta.
+  set (op := OUpdate k v (N.pos p)). set (d1 := s_dealt s + 1).
+  assert (E : step s (LInvoke t op) = set_threads s (set_thread t {| t_op := op; t_pc := PStart; t_unk := false |} (s_threads s)))
+    by (unfold step, step_gen; rewrite G; reflexivity).
+  rewrite E. set (th0 := {| t_op := op; t_pc := PStart; t_unk := false |}).
+  set (sA := set_threads s (set_thread t th0 (s_threads s))).
+  assert (GA : get_thread t (s_threads sA) = Some th0) by apply get_set_same.
+  (* Deal *)
+  rewrite (run_thread_ok_iter 11 t sA th0 GA) by (cbn; discriminate).
+  set (c := mk_ctx d1 (N.pos p) v None). set (b := mk_batch k (CIs (N.pos p, false)) d1 false v).
+  assert (TS1 : thread_step sA (t_op th0) (t_pc th0) EnvOk = (set_dealt sA d1, PCommit CFinal c b, false)).
+  { cbn [thread_step th0 t_op t_pc op op_key]. cbn [sA s_dealt set_threads]. fold d1.
+    assert ((d1 <? N.pos p) = false) as -> by (apply N.ltb_ge; unfold d1; lia). reflexivity. }
+  rewrite (step_thread_eq sA t EnvOk th0 _ _ _ GA TS1).
+  set (th1 := {| t_op := t_op th0; t_pc := PCommit CFinal c b; t_unk := t_unk th0 || false |}).
+  set (sB := set_threads (set_dealt sA d1) (set_thread t th1 (s_threads (set_dealt sA d1)))).
+  assert (GB : get_thread t (s_threads sB) = Some th1) by apply get_set_same.
+  (* commit *)
+  rewrite (run_thread_ok_iter 10 t sB th1 GB) by (cbn; discriminate).
+  assert (TS2 : thread_step sB (t_op th1) (t_pc th1) EnvOk = (set_store sB (apply_batch (s_store s) b), PNotify c None, false)).
+  { cbn [thread_step th1 t_op t_pc th0]. unfold commit. cbn [b mk_batch b_cond b_key sB sA s_store set_threads set_dealt cond_holds].
+    rewrite Hi. assert (idxval_eqb (N.pos p, false) (N.pos p, false) = true) as -> by (apply idxval_eqb_eq; reflexivity). reflexivity. }
+  rewrite (step_thread_eq sB t EnvOk th1 _ _ _ GB TS2).
+  set (th2 := {| t_op := t_op th1; t_pc := PNotify c None; t_unk := t_unk th1 || false |}).
+  set (sC0 := set_store sB (apply_batch (s_store s) b)).
+  set (sC := set_threads sC0 (set_thread t th2 (s_threads sC0))).
+  assert (GC : get_thread t (s_threads sC) = Some th2) by apply get_set_same.
+  (* notify *)
+  rewrite (run_thread_ok_iter 9 t sC th2 GC) by (cbn; discriminate).
+  set (ev := mk_ev d1 (N.pos p) VPut k v None).
+  assert (TS3 : thread_step sC (t_op th2) (t_pc th2) EnvOk = (set_slots sC (slot_set (s_slots s) d1 (Some ev)), PRespond c None, false)) by reflexivity.
+  rewrite (step_thread_eq sC t EnvOk th2 _ _ _ GC TS3).
+  set (th3 := {| t_op := t_op th2; t_pc := PRespond c None; t_unk := t_unk th2 || false |}).
+  set (sD0 := set_slots sC (slot_set (s_slots s) d1 (Some ev))).
+  set (sD := set_threads sD0 (set_thread t th3 (s_threads sD0))).
+  assert (GD : get_thread t (s_threads sD) = Some th3) by apply get_set_same.
+  (* respond *)
+  rewrite (run_thread_ok_iter 8 t sD th3 GD) by (cbn; discriminate).
+  assert (TS4 : thread_step sD (t_op th3) (t_pc th3) EnvOk = (sD, PDone (ROk d1 None), false)) by reflexivity.
+  rewrite (step_thread_eq sD t EnvOk th3 _ _ _ GD TS4).
+  set (th4 := {| t_op := t_op th3; t_pc := PDone (ROk d1 None); t_unk := t_unk th3 || false |}).
+  set (sE := set_threads sD (set_thread t th4 (s_threads sD))).
+  assert (GE : get_thread t (s_threads sE) = Some th4) by apply get_set_same.
+  rewrite (run_thread_stop 7 t sE th4 (ROk d1 None) GE eq_refl).
+  exists th4. split; [exact GE|]. split; [reflexivity|]. split; [reflexivity|]. split; [reflexivity|]. split; [reflexivity|]. split; [reflexivity|].
+  unfold thread_frame, sE, sD, sD0, sC, sC0, sB, sA.
+  cbn [s_committed s_seq s_retry s_queue s_events s_now s_threads set_threads set_dealt set_store set_slots].
+  repeat split; auto.
+  - intros t' Ht'. rewrite !get_set_other by exact Ht'. reflexivity.
+  - right. exists th4. rewrite !set_set_thread. reflexivity.
+Qed.
+
+(* version revisions are positive *)
+Lemma reach_vers_pos q s : reach q s -> forall k r v, In (r, v) (vers s k) -> 0 < r.
+Proof.
+  induction 1 as [|s l R IH W]; intros k r v H; [contradiction|].
+  destruct (step_vers s l k (reach_inv1 q s R) (reach_inv2 q s R) W) as [E|[r1 [v1 [E Hr]]]]; rewrite E in H.
+  - apply (IH k r v H).
+  - destruct H as [H|H]; [injection H as <- _; lia|apply (IH k r v H)].
+Qed.
+
+(* what the oracle remembers between a drained List and the probes that follow it *)
+Definition PI (l : list (key * value * N)) (s : state) : Prop :=
+  quiescent s /\
+  forall k v r, lookup_kv k l = Some (v, r) -> exists rest, vers s k = (r, v) :: rest /\ is_tomb v = false.
+
+Lemma lookup_snap_some s R k v r : lookup_kv k (snap_list s R) = Some (v, r) -> snap s R k = Some (v, r).
+Proof.
+  intros H. destruct (in_dec N.eq_dec k keys4) as [Hin|Hn]; [rewrite lookup_snap_list in H by exact Hin; exact H|].
+  exfalso. unfold snap_list, keys4 in *. cbn [flat_map] in H.
+  assert (k <> 0 /\ k <> 1 /\ k <> 2 /\ k <> 3) as [N0 [N1 [N2 N3]]] by (repeat split; intros ->; apply Hn; simpl; auto).
+  apply N.eqb_neq in N0, N1, N2, N3.
+  destruct (snap s R 0) as [[? ?]|], (snap s R 1) as [[? ?]|], (snap s R 2) as [[? ?]|], (snap s R 3) as [[? ?]|];
+    cbn [lookup_kv app] in H; rewrite ?(N.eqb_sym _ k), ?N0, ?N1, ?N2, ?N3 in H; discriminate.
+Qed.
+
+Lemma PI_of_list q s : reach q s -> quiescent s -> PI (snap_list s (s_committed s)) s.
+Proof.
+  intros R Q. split; [exact Q|]. intros k v r H. apply lookup_snap_some in H.
+  unfold snap, snap_vers in H. pose proof (v_desc _ (reach_inv2 q s R) k) as D. unfold vers in *.
+  destruct Q as [_ [_ [_ [_ Hd]]]].
+  destruct (k_vers (s_store s k)) as [|[r1 v1] rest] eqn:EV; [discriminate|].
+  assert (r1 <= s_committed s) by (rewrite <- Hd; apply (v_le _ (reach_inv2 q s R) k r1 v1); unfold vers; rewrite EV; left; reflexivity).
+  rewrite (latest_le_head _ r1 v1 rest (s_committed s) D eq_refl H0) in H.
+  destruct (is_tomb v1) eqn:T; [discriminate|]. injection H as <- <-. exists rest. auto.
+Qed.
+
+Lemma lookup_remove k k' l : lookup_kv k' (remove_kv k l) = (if k' =? k then None else lookup_kv k' l).
+Proof.
+  induction l as [|[[k0 v0] r0] l IH]; cbn [remove_kv lookup_kv]; [destruct (k' =? k); reflexivity|].
+  destruct (k0 =? k) eqn:E0.
+  - apply N.eqb_eq in E0. subst k0. rewrite IH. destruct (k' =? k) eqn:E; [reflexivity|].
+    assert ((k =? k') = false) as -> by (apply N.eqb_neq; apply N.eqb_neq in E; congruence). reflexivity.
+  - cbn [lookup_kv]. destruct (k0 =? k') eqn:E1; [|exact IH].
+    apply N.eqb_eq in E1. subst k0. assert ((k' =? k) = false) as -> by exact E0. reflexivity.
+Qed.
+
+Lemma settle_S f held s :
+  settle (S f) held s =
+  match s_seq s with
+  | SeqIdle => match s_slots s (s_committed s + 1) with None => s | Some _ => settle f held (step s LSeq) end
+  | SeqHold ev => match held with
+                  | Some r => if r =? e_rev ev then s else settle f held (step s LSeq)
+                  | None => settle f held (step s LSeq)
+                  end
+  | SeqMid _ => settle f held (step s LSeq)
+  end.
+Proof. reflexivity. Qed.
+
+Lemma probe_hit q m l k v prev val :
+  MI q m -> PI l (m_s m) -> lookup_kv k l = Some (val, prev) ->
+  (exists u, o_d (snd (dstep_run m (DWrite (OUpdate k v prev) [] false false))) = OResp (ROk (s_dealt (m_s m) + 1) None) u) /\
+  PI (remove_kv k l) (m_s (fst (dstep_run m (DWrite (OUpdate k v prev) [] false false)))).
+Proof.
+  intros [MR MF MD] [Q HL] Hk. set (s := m_s m) in *. set (t := m_tid m).
+  pose proof (reach_inv1 q s MR) as I1. pose proof (reach_inv2 q s MR) as I2.
+  destruct (HL k val prev Hk) as [rest [Hv Ht]].
+  assert (Hpos : 0 < prev) by (apply (reach_vers_pos q s MR k prev val); rewrite Hv; left; reflexivity).
+  destruct prev as [|p]; [lia|].
+  assert (Hi : k_idx (s_store s k) = Some (N.pos p, false)).
+  { pose proof (v_idx _ I2 k) as X. unfold idx_ok in X. unfold vers in Hv. rewrite Hv in X. rewrite Ht in X. exact X. }
+  assert (Hle : N.pos p <= s_dealt s) by (apply (v_le _ I2 k (N.pos p) val); rewrite Hv; left; reflexivity).
+  assert (G : get_thread t (s_threads s) = None) by (apply MF; unfold t; lia).
+  pose proof (upd_run s t k v p val rest G Hv Hi Hle) as UR. cbv zeta in UR.
+  unfold dstep_run. cbv zeta. fold s. fold t. cbn [andb].
+  remember (run_thread 12 t [] false (step s (LInvoke t (OUpdate k v (N.pos p))))) as s1 eqn:Es1.
+  destruct UR as [th' [G' [P' [U' [Hst [Hd [Hs [F1 [F2 [F3 [F4 [F5 [F6 [F7 F8]]]]]]]]]]]]]].
+  destruct Q as [NL [Qs [Qr [Qq Qd]]]].
+  assert (Eob : resp_of s1 t = OResp (ROk (s_dealt s + 1) None) false) by (unfold resp_of; rewrite G', P', U'; reflexivity).
+  cbn [fst snd m_s mk_obs o_d]. split; [rewrite Eob; eauto|].
+  (* the sequencer publishes the event and stops *)
+  set (ev := mk_ev (s_dealt s + 1) (N.pos p) VPut k v None) in *.
+  set (sS := set_events (set_committed (set_slots s1 (slot_set (s_slots s1) (s_committed s1 + 1) None)) (e_rev ev))
+                        (ev :: s_events (set_committed (set_slots s1 (slot_set (s_slots s1) (s_committed s1 + 1) None)) (e_rev ev)))).
+  assert (Hc1 : s_committed s1 + 1 = s_dealt s + 1) by (rewrite F1; lia).
+  assert (E1 : step s1 LSeq = sS).
+  { unfold step, step_gen, seq_step. rewrite F2, Qs, Hc1, Hs, slot_set_same. reflexivity. }
+  assert (Eset : settle seq_fuel (m_held m) s1 = sS).
+  { change seq_fuel with (S (S 62)). rewrite settle_S, F2, Qs, Hc1, Hs, slot_set_same, E1, settle_S.
+    assert (s_seq sS = SeqIdle) as -> by (unfold sS; cbn; rewrite F2; exact Qs).
+    assert (s_slots sS (s_committed sS + 1) = None) as ->; [|reflexivity].
+    unfold sS. cbn [s_slots s_committed set_events set_committed set_slots ev mk_ev e_rev].
+    rewrite Hc1, Hs. rewrite slot_set_other by lia. rewrite slot_set_other by lia.
+    destruct (s_slots s (s_dealt s + 1 + 1)) as [e0|] eqn:SL; [apply (i_slot _ I1) in SL; lia|reflexivity]. }
+  rewrite Eset. split.
+  - unfold quiescent, no_live_request, sS. cbn [s_threads s_seq s_retry s_queue s_dealt s_committed set_events set_committed set_slots ev mk_ev e_rev].
+    split; [|split; [rewrite F2; exact Qs|split; [rewrite F3; exact Qr|split; [rewrite F4; exact Qq|exact Hd]]]].
+    intros t0 th0 G0. destruct (N.eq_dec t0 t) as [->|Ne].
+    + rewrite G' in G0. injection G0 as <-. rewrite P'. reflexivity.
+    + rewrite F7 in G0 by exact Ne. apply (NL t0 th0 G0).
+  - intros k' v' r' H'. rewrite lookup_remove in H'. destruct (k' =? k) eqn:Ek; [discriminate|]. apply N.eqb_neq in Ek.
+    destruct (HL k' v' r' H') as [rest' [Hv' Ht']]. exists rest'. split; [|exact Ht'].
+    unfold vers, sS. cbn [s_store set_events set_committed set_slots]. rewrite Hst, apply_batch_other; [exact Hv'|exact Ek].
 Qed.
